@@ -126,6 +126,7 @@ def register(reg):
     _register_squash(reg)
     _register_prune(reg)
     _register_proof(reg)
+    _register_get_proof(reg)
     _register_at_root(reg)
 
 
@@ -1885,3 +1886,188 @@ def _register_at_root(reg):
     H = HEX + ":HexaryTrie."
     reg.add("hexary_api", Contract(H + "at_root", ["self", "at_root_hash"], at_root_cases, setup=at_root_setup,
                                    props=("C04",), callee=False, body_model=at_root_body))
+
+
+# ---------------------------------------------------------------------------------------------------
+# get_proof / _get_proof (C03, the producer's half): the proof holds every hashed node a walk of the key dereferences
+# (`hneed`, the structural notion the write path's failure reports use) together with the root node, and *exactly* the
+# nodes on the key's path (`onpath`, node-valued; embedded nodes included) -- nothing else.
+#
+# The proof tuple is a tuple of raw node lists of unknown length; the engine value for it is a `ProofTuple` object
+# that carries two ghost sets: the hashes keccak(rlp(n)) of its members and the members themselves in the datatype
+# view.  `t + (node,)` adds one member to both.
+
+class _ProofTupleCls:
+    name = "ProofTuple"
+
+    def lookup(self, name):
+        if name == "__add__":
+            return I_Builtin("ProofTuple.__add__", pt_add)
+        return None
+
+    def mro(self):
+        return [self]
+
+    def is_exception(self):
+        return False
+
+
+def I_Builtin(name, fn):
+    from pyvc.interp import Builtin
+    return Builtin(name, fn)
+
+
+PT = _ProofTupleCls()
+HSet = z3.ArraySort(SeqI, z3.BoolSort())
+NSet = z3.ArraySort(HNode, z3.BoolSort())
+GH = z3.Const("h!proof", SeqI)            # ghost: an arbitrary node hash
+GX = z3.Const("x!proofnode", HNode)       # ghost: an arbitrary node
+
+
+def node_hash(D):
+    return specfn.keccak(z3.simplify(HM.rlpenc(D)))
+
+
+def mk_pt(E, memH=None, memN=None, base="proof"):
+    o = Obj(PT, {})
+    o.memH = memH if memH is not None else z3.Const(E.fresh_name(base + ".hashes"), HSet)
+    o.memN = memN if memN is not None else z3.Const(E.fresh_name(base + ".nodes"), NSet)
+    return o
+
+
+def pt_of(v):
+    """(hash set, node set) of a proof tuple value: a ProofTuple object or the concrete empty tuple"""
+    if isinstance(v, Obj) and v.cls is PT:
+        return v.memH, v.memN
+    if isinstance(v, tuple) and len(v) == 0:
+        return z3.K(SeqI, z3.BoolVal(False)), z3.K(HNode, z3.BoolVal(False))
+    raise Unsupported("proof tuple %r" % (v,))
+
+
+def pt_add(E, a, b):
+    if not isinstance(b, tuple):
+        raise Unsupported("ProofTuple + %r" % (b,))
+    mh, mn = pt_of(a)
+    for x in b:
+        D = HM.alpha(x)
+        mh = z3.Store(mh, node_hash(D), z3.BoolVal(True))
+        mn = z3.Store(mn, D, z3.BoolVal(True))
+    return mk_pt(E, mh, mn)
+
+
+onpath = z3.Function("onpath", HNode, SeqI, HNode, z3.BoolSort())   # X is a node the walk of key k below D passes
+
+
+def unfold_onpath(E, D, k, X):
+    """definitional step of onpath at (D, k): the node itself (unless blank); below an extension whose path the key
+    runs through and below a branch (key not exhausted) the nodes on the rest of the path"""
+    D, k = z3.simplify(D), z3.simplify(k)
+    ep = HNode.epath(D)
+    kt = HM.tail(k, 1)
+    br = z3.BoolVal(False)
+    for i in reversed(range(16)):
+        br = z3.If(k[0] == i, onpath(HM.deref(E, HM.child(D, i)), kt, X), br)
+    below = z3.If(HNode.is_HExt(D), z3.And(z3.PrefixOf(ep, k), onpath(HM.deref(E, HNode.echild(D)), HM.tail(k, z3.Length(ep)), X)),
+                  z3.If(HNode.is_HBranch(D), z3.And(z3.Length(k) > 0, br), z3.BoolVal(False)))
+    E.assume(mk_bool(onpath(D, k, X) == z3.And(z3.Not(HNode.is_HBlank(D)), z3.Or(X == D, below))))
+    E.assume(mk_bool(z3.Not(onpath(HNode.HBlank, kt, X))))
+    E.assume(mk_bool(z3.Not(onpath(HNode.HBlank, HM.tail(k, z3.Length(ep)), X))))
+    for (Dr, jr, chain) in E.ghost.get("sym_reads", []):
+        if Dr.eq(D):
+            E.assume(mk_bool(z3.Implies(z3.And(z3.Length(k) > 0, k[0] == jr),
+                                        onpath(D, k, X) == z3.Or(X == D, onpath(HM.deref(E, chain), kt, X)))))
+
+
+def gp_setup(E):
+    t = read_trie(E)
+    D = z3.Const("node0.D", HNode)
+    E.assume(mk_bool(HM.hwfp(D)))
+    HM.unfold_wf(E, D)
+    node = HM.materialize(E, D)
+    key = HM.nibs(E, "trie_key")
+    pl = E.fresh_int("proven_len")
+    E.assume(mk_bool(z3.And(pl.t >= 0, pl.t <= z3.Length(key.t))))
+    return {"self": t, "node": node, "trie_key": key, "proven_len": pl, "last_proof": mk_pt(E, base="last_proof")}
+
+
+def gp_requires(E, ctx):
+    D = HM.alpha(ctx.node)
+    K = ops.seq_term_as(ctx.trie_key, "int")
+    pl = as_int_term(ctx.proven_len)
+    return [("node-blank-or-well-formed", mk_bool(z3.Or(HNode.is_HBlank(D), HM.hwfp(D)))),
+            ("proven-length-within-the-key", mk_bool(z3.And(pl >= 0, pl <= z3.Length(K))))]
+
+
+def gp_clauses(E, D, k, H0, N0, r):
+    if not (isinstance(r, Obj) and r.cls is PT):
+        return [("returns-a-proof-tuple", False)]
+    return [("every-hashed-node-the-walk-needs-and-the-node-itself-are-in-the-proof",
+             mk_bool(z3.Implies(z3.Or(z3.Select(H0, GH), z3.And(z3.Not(HNode.is_HBlank(D)), node_hash(D) == GH),
+                                      HM.hneed(D, k, GH)), z3.Select(r.memH, GH)))),
+            ("exactly-the-nodes-on-the-key's-path-are-added",
+             mk_bool(z3.Select(r.memN, GX) == z3.Or(z3.Select(N0, GX), onpath(D, k, GX))))]
+
+
+def gp_cases(E, ctx):
+    from contracts import seqlemmas as SL
+    D = HM.alpha(ctx.node)
+    K = ops.seq_term_as(ctx.trie_key, "int")
+    pl = as_int_term(ctx.proven_len)
+    k = HM.tail(K, pl)
+    H0, N0 = pt_of(ctx.last_proof)
+    unit_mode = hasattr(ctx, "outcome")
+    db = ctx.self.fields["db"]
+
+    def ens(r):
+        HM.unfold_wf(E, D)
+        HM.unfold_hneed(E, D, k, GH)
+        unfold_onpath(E, D, k, GX)
+        SL.use(E, "tail_tail", K, pl, z3.Length(HNode.epath(D)))
+        SL.use(E, "tail_tail", K, pl, z3.IntVal(1))
+        return gp_clauses(E, D, k, H0, N0, r)
+
+    def make():
+        r = mk_pt(E, base="proof")
+        for (_n, c) in gp_clauses(E, D, k, H0, N0, r):
+            E.assume(c)
+        return r
+    def missing_key_error():
+        h = objs.hash32(E, "missing")
+        E.assume(mk_bool(z3.Not(z3.Select(ctx.old_has(db), HM.bytes_of(h)))))
+        return ExcObj(KeyError, (h,))
+    return [Case("proof", ensures=ens if unit_mode else None, make=None if unit_mode else make, modifies=[]),
+            # a node of the path is not in the database: get_node's KeyError passes through unchanged
+            Case("missing-node", raises=KeyError, modifies=[],
+                 exc=lambda e: [("hash-is-absent", mk_bool(z3.Not(z3.Select(ctx.old_has(db), HM.bytes_of(e.args[0])))) if e.args else False)],
+                 make=None if unit_mode else missing_key_error)]
+
+
+def gproof_cases(E, ctx):
+    from contracts.nibbles_c import B2N
+    root = HM.bytes_of(ctx.old_field(ctx.self, "root_hash"))
+    D0 = node_of_root(E, root)
+    K = B2N(ops.seq_term_as(ctx.key, "int"))
+    empty_h, empty_n = pt_of(())
+    db = ctx.self.fields["db"]
+
+    def ens(r):
+        if isinstance(r, tuple) and len(r) == 0:
+            r = mk_pt(E, empty_h, empty_n)
+        HM.unfold_hneed(E, D0, K, GH)
+        unfold_onpath(E, D0, K, GX)
+        out = gp_clauses(E, D0, K, empty_h, empty_n, r)
+        if len(out) == 2:
+            out.append(("the-root-node-is-in-the-proof-unless-the-trie-is-empty",
+                        mk_bool(z3.Implies(z3.And(root == GH, root != HM.blank_node_hash(E)), z3.Select(r.memH, GH)))))
+        return out
+    return [Case("proof", ensures=ens, modifies=[]),
+            Case("missing-node", raises=KeyError, modifies=[],
+                 exc=lambda e: [("hash-is-absent", mk_bool(z3.Not(z3.Select(ctx.old_has(db), HM.bytes_of(e.args[0])))) if e.args else False)])]
+
+
+def _register_get_proof(reg):
+    H = HEX + ":HexaryTrie."
+    reg.add("hexary_proof", Contract(H + "_get_proof", ["self", "node", "trie_key", "proven_len", "last_proof"], gp_cases,
+                                     setup=gp_setup, requires=gp_requires, props=("C03",)))
+    reg.add("hexary_proof", Contract(H + "get_proof", ["self", "key"], gproof_cases,
+                                     setup=lambda E: root_ref_setup(E, True), props=("C03",), callee=False))
